@@ -226,6 +226,8 @@ func (r DenseInt32Vector) MdotV(a ConstMatrix, b ConstVector) Vector {
     panic("matrix/vector dimensions do not match!")
   }
   if n == 0 || m == 0 {
+    // empty sums
+    r.Reset()
     return r
   }
   if r.AT(0) == b.ConstAt(0) {
@@ -247,6 +249,8 @@ func (r DenseInt32Vector) MDOTV(a *DenseInt32Matrix, b DenseInt32Vector) Vector 
     panic("matrix/vector dimensions do not match!")
   }
   if n == 0 || m == 0 {
+    // empty sums
+    r.Reset()
     return r
   }
   if r.AT(0) == b.AT(0) {
@@ -270,6 +274,8 @@ func (r DenseInt32Vector) VdotM(a ConstVector, b ConstMatrix) Vector {
     panic("matrix/vector dimensions do not match!")
   }
   if n == 0 || m == 0 {
+    // empty sums
+    r.Reset()
     return r
   }
   if r.AT(0) == a.ConstAt(0) {
@@ -291,6 +297,8 @@ func (r DenseInt32Vector) VDOTM(a DenseInt32Vector, b *DenseInt32Matrix) Vector 
     panic("matrix/vector dimensions do not match!")
   }
   if n == 0 || m == 0 {
+    // empty sums
+    r.Reset()
     return r
   }
   if r.AT(0) == a.ConstAt(0) {
